@@ -71,6 +71,9 @@ def float_of_bits(bits):
 def const_float(t):
     if is_const(t) and t[1] == "float":
         return float_of_bits(t[2])
+    if t and t[0] == "un" and t[1] == "Neg":
+        v = const_float(t[2])            # `-NAMED_CONST` is a negation at run time, of a compile-time value
+        return None if v is None else -v
     return None
 
 
